@@ -94,7 +94,7 @@ func reasmSpec(id string, which reasm.Which, snapshot bool, rule string, assumpt
 		// timed histories (the C19 generator: timeouts of milliseconds with real sleeps, Maintain): the same
 		// boundary oracle applies whatever made an event leave the buffer, expiry included
 		if !which.C10 {
-			nTimed := c.Pick(6000, 600_000)
+			nTimed := c.Pick(24000, 600_000)
 			sem := make(chan struct{}, 256)
 			var wg sync.WaitGroup
 			for i := 0; i < nTimed; i++ {
